@@ -86,7 +86,7 @@ def gen(rng, tier):
             s.nodes = {k: v for k, v in s.nodes.items() if k in used}
         base = L.layout(rng, s, plain=True)
         w = (g % 3 == 0) and s.meta["kind"] != "coincident-bars/flitch"     # with their weight on, the two members of a flitch beam carry different loads
-        cases.append({"Text": base, "kind": s.meta["kind"], "group": g, "role": "base", "Weight": w, "Solve": True, "Assemble": True, "Error": ERR})
+        cases.append({"Text": base, "kind": s.meta["kind"], "group": g, "role": "base", "Weight": w, "Solve": True, "Assemble": True, "Error": ERR, "Repre": True})
         ids = [b["id"] for b in s.bars]
         perms = list(itertools.permutations(ids))
         if len(perms) > (6 if tier == "quick" else 24):
@@ -131,6 +131,14 @@ def oracle(c, o):
         return []
     cA, oA = base
     fails = []
+    if oA.get("PreAfter") is not None:
+        # what preprocessing returned must not change when the same definition is preprocessed again later in the process
+        pa = oA["PreAfter"]
+        if pa.get("Panic"):
+            fails.append("looking at the first preprocessed structure after a second preprocessing panicked: " + pa["Panic"][:150])
+        elif pa != oA["Pre"][0]:
+            d = same_sliced_up_to_numbers(oA["Pre"][0], pa) or "the equation numbers of its nodes changed"
+            fails.append("the preprocessed structure changed after the definition was preprocessed once more: " + d)
     tA = M.utol(oA) if M.solved(oA) else None
     for cc, oB in members:
         role = cc["role"]
@@ -209,6 +217,10 @@ def race_runs(ctx):
     ex = os.path.join(C.REPO, "examples", "loadsstr.inkfem")
     if os.path.exists(ex):
         texts.append(open(ex).read())
+    # a frame of several dozen bars (whatever the code does differently for large structures is exercised too)
+    frame = subprocess.run([cli.BIN, "generate", "--type", "retic", "--spans", "5", "--levels", "4"], stdout=subprocess.PIPE, text=True).stdout
+    if frame.startswith("inkfem v"):
+        texts.append(frame)
     runs = 0
     saved = cli.BIN
     cli.BIN = exe
